@@ -46,7 +46,13 @@ CONSTANTS Eco,        \* "npm" | "maven"
           MForms,     \* maven: version forms in use
           MShadow,    \* maven: BOOLEAN, a referenced property may have several visible definitions
           MAdd,       \* maven: BOOLEAN, also explore an added (transitive) dependencyManagement override
-          AsBuilt     \* BOOLEAN: emit/check the as-built transcription as well
+          AsBuilt,    \* BOOLEAN: emit/check the as-built transcription as well
+          \* deviation constants of the as-built pom.xml writer (TRUE = the code as it is while the finding is not
+          \* repaired; FALSE = the repaired behaviour; tools/c13.py sets FALSE for findings listed as fixed)
+          DevFirstMatch, \* C13-same-key-first-match: the first declaration with the key wins, whatever its section
+          DevLeak,       \* C13-shared-property-leak: a property is rewritten although other requirements read it
+          DevPropLoc     \* C13-parent-property-not-updated / C13-shadowed-property-definition: the property is
+                         \* patched at the dependency's own profile or file, wherever it is defined
 
 VARIABLES phase, ents, pdefs, lay, ups, add
 vars == <<phase, ents, pdefs, lay, ups, add>>
@@ -244,21 +250,38 @@ ChangedIds(E, D, W) ==
   {"e" \o ToString(i) : i \in {j \in 1..Len(E) : W.vt[j] # W0.vt[j]}} \cup {"p:" \o d.loc \o ":" \o d.n : d \in {c \in D : W.pv[c] # W0.pv[c]}}
 
 \* ---- as-built writer (pomxml.go buildPatches, writeProject, writeDependency) ----
-ABTarget(E, u) == Min({i \in 1..Len(E) : E[i].k = E[u.e].k /\ HasVer(E, i)})   \* OriginalDependency: first with the key
+\* OriginalDependency: the first declaration with the key; repaired: the first one in the kind of section the
+\* requirement was read from, if there is one
+ABTarget(E, u) ==
+  LET c == {i \in 1..Len(E) : E[i].k = E[u.e].k /\ HasVer(E, i)}
+      pref == {i \in c : (E[i].sec = "dm") = (E[u.e].sec = "dm")}
+  IN IF DevFirstMatch \/ pref = {} THEN Min(c) ELSE Min(pref)
 TopOf(loc) == IF loc = "par" THEN "par" ELSE "top"
-WLoc(E, D, x, n) == IF E[x].loc \in {"p1", "p2"} /\ [loc |-> E[x].loc, n |-> n] \in D THEN E[x].loc ELSE TopOf(E[x].loc)
-RECURSIVE ABPlan(_, _, _, _)
-ABPlan(E, D, U, st) ==
+\* where a property patch is written. As built: the dependency's own profile if it defines the property, else the
+\* top level of the dependency's file. Repaired: at the single definition, provided the dependency reads it.
+DefsOf(D, n) == {d \in D : d.n = n}
+DefReadable(E, x, d) == d.loc = TopOf(E[x].loc) \/ d.loc = E[x].loc \/ (E[x].loc # "par" /\ d.loc = "par")
+Locatable(E, D, x, n) == Cardinality(DefsOf(D, n)) = 1 /\ DefReadable(E, x, CHOOSE d \in DefsOf(D, n) : TRUE)
+WLoc(E, D, x, n) ==
+  IF DevPropLoc THEN (IF E[x].loc \in {"p1", "p2"} /\ [loc |-> E[x].loc, n |-> n] \in D THEN E[x].loc ELSE TopOf(E[x].loc))
+  ELSE (CHOOSE d \in DefsOf(D, n) : TRUE).loc
+\* repaired: a property is rewritten only if every declaration that mentions it is updated by the same call
+AllUsersUpdated(E, U0, n) == \A i \in 1..Len(E) : (HasVer(E, i) /\ n \in Refs(E[i].f)) => i \in {ABTarget(E, U0[j]) : j \in 1..Len(U0)}
+RECURSIVE ABPlanR(_, _, _, _, _)
+ABPlanR(E, D, U, U0, st) ==
   IF U = <<>> THEN st
   ELSE LET u == Head(U)
            x == ABTarget(E, u)
-           sol == Sol(E[x].f, u.to)
+           sol0 == Sol(E[x].f, u.to)
+           sol == IF (~DevLeak /\ \E s \in sol0 : ~AllUsersUpdated(E, U0, s.n)) \/ (~DevPropLoc /\ \E s \in sol0 : ~Locatable(E, D, x, s.n))
+                  THEN {} ELSE sol0
            preset(s) == {p \in st.pp : p.loc = WLoc(E, D, x, s.n) /\ p.n = s.n}
            conflict == \E s \in sol : \E p \in preset(s) : p.v # s.v
            fresh == {[loc |-> WLoc(E, D, x, s.n), n |-> s.n, v |-> s.v] : s \in {q \in sol : preset(q) = {}}}
-       IN ABPlan(E, D, Tail(U),
+       IN ABPlanR(E, D, Tail(U), U0,
                  [dp |-> IF sol = {} \/ conflict THEN st.dp \cup {[i |-> x, to |-> u.to]} ELSE st.dp,
                   pp |-> st.pp \cup fresh])
+ABPlan(E, D, U, st) == ABPlanR(E, D, U, U, st)
 ABW(E, D, U) ==
   LET plan == ABPlan(E, D, U, [dp |-> {}, pp |-> {}])
       W0 == Doc0(E, D)
@@ -268,15 +291,15 @@ ABNondet(E, D, U) == LET plan == ABPlan(E, D, U, [dp |-> {}, pp |-> {}]) IN \E q
 
 \* ---- finding classes (predicates over scenarios, in terms of the ideal reading) ----
 K1(E, D, U) == \E t \in TargetsOf(E, U) : SolOf(E, U, t) # {} /\ ~Rewritable(E, D, U, t)
-K2(E, D, U) == \E j \in 1..Len(U) : ABTarget(E, U[j]) # Target(E, U[j].e)
+K2(E, D, U) == \E j \in 1..Len(U) : Min({i \in 1..Len(E) : E[i].k = E[U[j].e].k /\ HasVer(E, i)}) # Target(E, U[j].e)
 K3a(E, D, U) == \E t \in TargetsOf(E, U) : \E s \in SolOf(E, U, t) : E[t].loc # "par" /\ DefLoc(E[t].loc, s.n, D) = "par"
 K3b(E, D, U) == \E t \in TargetsOf(E, U) : \E s \in SolOf(E, U, t) :
-                   /\ WLoc(E, D, t, s.n) # DefLoc(E[t].loc, s.n, D)
+                   /\ (IF E[t].loc \in {"p1", "p2"} /\ [loc |-> E[t].loc, n |-> s.n] \in D THEN E[t].loc ELSE TopOf(E[t].loc)) # DefLoc(E[t].loc, s.n, D)
                    /\ ~(E[t].loc # "par" /\ DefLoc(E[t].loc, s.n, D) = "par")
-Devs(E, D, U) == (IF K1(E, D, U) THEN {"C13-shared-property-leak"} ELSE {})
-            \cup (IF K2(E, D, U) THEN {"C13-same-key-first-match"} ELSE {})
-            \cup (IF K3a(E, D, U) THEN {"C13-parent-property-not-updated"} ELSE {})
-            \cup (IF K3b(E, D, U) THEN {"C13-shadowed-property-definition"} ELSE {})
+Devs(E, D, U) == (IF DevLeak /\ K1(E, D, U) THEN {"C13-shared-property-leak"} ELSE {})
+            \cup (IF DevFirstMatch /\ K2(E, D, U) THEN {"C13-same-key-first-match"} ELSE {})
+            \cup (IF DevPropLoc /\ K3a(E, D, U) THEN {"C13-parent-property-not-updated"} ELSE {})
+            \cup (IF DevPropLoc /\ K3b(E, D, U) THEN {"C13-shadowed-property-definition"} ELSE {})
 
 -----------------------------------------------------------------------------
 (* ===================== scenario construction =========================== *)
